@@ -45,10 +45,12 @@ inline void use(std::array<E, 3> &a3, std::vector<E> &v, std::shared_ptr<FixedAr
   OwnedArray<E> o1(a3), o2(o1), o3(std::move(o1)); o2 = o3; o2 = std::move(o3); o2 = a3;
   FixedArray<E> f1(a3), f2(f1), f3(std::move(f1)); f2 = f3; f2 = std::move(f3); f2 = a3;
   FixedArrayView<E> w1(sp, 0, 0), w2(w1), w3(std::move(w1)); w2 = w3; w2 = std::move(w3);
+  ArrayView<E> m = make_ArrayView(a3.data(), a3.size()); (void)m;
 }
 }
 '''
 
+LAST_INVENTORY = []
 CLASSES = {"AbstractArray": "CAbstract", "ArrayView": "CView", "OwnedArray": "COwned", "FixedArray": "CFixed",
            "FixedArrayView": "CFView"}
 SPECIALS = ["SCopyCtor", "SMoveCtor", "SCopyAssign", "SMoveAssign", "SDtor"]
@@ -539,6 +541,87 @@ def signatures(cl):
     return out
 
 
+# ------------------------------------------------------------------ inventory: every declaration of the six headers
+def norm_type(t):
+    import re
+    t = t.replace("rkcommon::utility::", "").replace("c11inst::E", "E").replace("<E>", "<T>")
+    t = re.sub(r"std::array<E, 3(UL)?>", "std::array<T, N>", t)
+    t = re.sub(r"\bE\b", "T", t)
+    return t
+
+
+def inventory(docs, cl):
+    """one line per declaration: 'Class::name : type [flags]' for members (constructors, destructor, methods, conversion
+    operators, member templates by their instantiation, fields, type aliases, friends; implicit ones included),
+    'bases Class : ...', and 'utility::name : type' for the namespace-level functions / function templates"""
+    out = []
+    for cn, cdecl in cl.items():
+        bases = ", ".join("%s %s" % (b.get("access", ""), norm_type((b.get("type") or {}).get("qualType", ""))) for b in cdecl.get("bases", []))
+        out.append("bases %s : %s" % (cn, bases or "-"))
+        access = "public"
+        for c in inner(cdecl):
+            k = c.get("kind")
+            if k == "AccessSpecDecl":
+                access = c.get("access", access)
+                continue
+            if k in ("TemplateArgument",) or (k == "CXXRecordDecl" and c.get("isImplicit")):
+                continue
+            ds = [c]
+            tmpl = ""
+            if k == "FunctionTemplateDecl":
+                specs = [x for x in inner(c) if x.get("kind") in ("CXXConstructorDecl", "CXXMethodDecl")]
+                ds = specs[-1:] if len(specs) >= 2 else specs[:1]
+                tmpl = "template<size_t N> "
+            for d in ds:
+                dk = d.get("kind")
+                name = d.get("name")
+                flags = []
+                if d.get("isImplicit"): flags.append("implicit")
+                elif access != "public": flags.append(access)
+                if d.get("virtual"): flags.append("virtual")
+                if d.get("pure"): flags.append("pure")
+                if d.get("explicitlyDefaulted"): flags.append("=default")
+                if d.get("explicitlyDeleted"): flags.append("=delete")
+                if dk == "CXXConversionDecl" or dk == "CXXConstructorDecl":
+                    # `explicit` is not in the JSON: recover it from the source text later (see explicit_names)
+                    pass
+                kindword = {"FieldDecl": "field ", "TypeAliasDecl": "using ", "TypedefDecl": "typedef ", "FriendDecl": "friend "}.get(dk, "")
+                ty = norm_type(qt(d)) if dk != "TypeAliasDecl" else norm_type(qt(d))
+                if dk == "CXXConversionDecl":
+                    name = norm_type(name)
+                out.append("%s%s%s::%s : %s%s" % (kindword, tmpl, cn, name, ty, (" [" + ",".join(flags) + "]") if flags else ""))
+    for d in docs:
+        if d.get("kind") != "NamespaceDecl":
+            continue
+        for c in inner(d):
+            k = c.get("kind")
+            if k in ("FunctionDecl", "FunctionTemplateDecl") :
+                if k == "FunctionTemplateDecl" and any(x.get("kind") in ("CXXConstructorDecl", "CXXMethodDecl") for x in inner(c)):
+                    continue          # out-of-line definition of a member template (listed with its class)
+                specs = [x for x in inner(c) if x.get("kind") == "FunctionDecl"] if k == "FunctionTemplateDecl" else [c]
+                pat = specs[0] if specs else c
+                out.append("utility::%s : %s%s" % (c.get("name"), "template " if k == "FunctionTemplateDecl" else "", norm_type(qt(pat))))
+            elif k in ("VarDecl", "TypeAliasDecl", "TypedefDecl", "EnumDecl", "CXXRecordDecl", "ClassTemplateDecl"):
+                if k == "ClassTemplateDecl" and c.get("name") in cl:
+                    continue
+                out.append("utility::%s %s" % (k, c.get("name")))
+    return sorted(set(out))
+
+
+def explicit_ctors(repo):
+    """the `explicit` specifiers of the six headers (not part of the JSON AST): 'Class(params)' source lines"""
+    import re
+    res = []
+    for h in ("AbstractArray", "ArrayView", "OwnedArray", "FixedArray", "FixedArrayView", "DataView"):
+        try:
+            txt = open(os.path.join(repo, "rkcommon", "utility", h + ".h")).read()
+        except OSError:
+            continue
+        for m in re.finditer(r"explicit\s+([^;{]+);", txt):
+            res.append("explicit %s: %s" % (h, " ".join(m.group(1).split())))
+    return sorted(res)
+
+
 # ------------------------------------------------------------------ (1) special members
 def special_status(cdecl, cls_name):
     selfref = cls_name + "<c11inst::E>"
@@ -832,6 +915,8 @@ def extract(repo, work, inc=None):
             if m and body_of(d) is not None and m not in table:
                 table[m] = member_ops(d, cn)
     exprs, notes = expr_facts(cl["AbstractArray"], cl["DataView"]) if "AbstractArray" in cl and "DataView" in cl else (unknown_facts()[2], ["classes missing"])
+    global LAST_INVENTORY
+    LAST_INVENTORY = inventory(docs, cl) + explicit_ctors(repo)
     return special, table, exprs, notes, signatures(cl)
 
 
@@ -853,7 +938,8 @@ def main(argv):
     else:
         sys.stdout.write(txt)
     if a.json:
-        json.dump({"special": special, "table": table, "exprs": exprs, "notes": notes, "signatures": sigs}, open(a.json, "w"), indent=1)
+        json.dump({"special": special, "table": table, "exprs": exprs, "notes": notes, "signatures": sigs, "inventory": LAST_INVENTORY},
+                  open(a.json, "w"), indent=1)
     return 0
 
 
